@@ -36,6 +36,14 @@ pub struct ConfigCase {
     pub script: Vec<Step>,
 }
 
+/// Either a small framework with a query script on one solver object, or a medium-size framework
+/// (40-200 arguments) on which the embedded and an external backend are compared problem by problem.
+#[derive(Clone, Debug, Serialize, Deserialize)]
+pub enum ConfigAny {
+    Small(ConfigCase),
+    Medium { meta: crate::checks::metamorphic::MetaCase, kissat: bool, picks: Vec<u8> },
+}
+
 pub struct Config;
 
 const KINDS: [Kind; 7] = [Kind::Gr, Kind::Co, Kind::Pr, Kind::St, Kind::Sst, Kind::Stg, Kind::Id];
@@ -196,17 +204,61 @@ impl Config {
 }
 
 impl Prop for Config {
-    type Case = ConfigCase;
+    type Case = ConfigAny;
     fn id(&self) -> &'static str {
         "C06"
     }
     fn rule(&self) -> String {
-        "A framework of <=8 arguments, ONE solver object per (solver type, selectable encoder, backend in {embedded CaDiCaL, ExternalSatSolver(fake_sat), ExternalSatSolver(kissat) when installed}) and a generated script of 3-12 steps put to that object (SE/DC/DS as the type supports, arguments with repetition, with and without certificate, the same query twice in a row). Every answer is compared with the brute-force reference (so all configurations agree with each other and none can be wrong in the same way), and a snapshot of the framework (labels, ids, attacks, counts) taken before the script equals the one after. Non-trivial: >=1 repeated query and >=2 distinct (query kind, certificate flag) pairs on a framework with >=2 extensions; distinct = case.".into()
+        "A framework of <=8 arguments, ONE solver object per (solver type, selectable encoder, backend in {embedded CaDiCaL, ExternalSatSolver(fake_sat), ExternalSatSolver(kissat) when installed}) and a generated script of 3-12 steps put to that object (SE/DC/DS as the type supports, arguments with repetition, with and without certificate, the same query twice in a row). Every answer is compared with the brute-force reference (so all configurations agree with each other and none can be wrong in the same way), and a snapshot of the framework (labels, ids, attacks, counts) taken before the script equals the one after. About 1 case in 250 is a framework of 40-200 arguments (generator of C11, too large for the brute-force oracle) on which 3-6 generated problems are answered through the embedded backend and through an external solver process (kissat or fake_sat): statuses and presence of a set must be equal and every returned set must satisfy the polynomial necessary conditions (instances of hundreds of SAT variables go through the DIMACS exchange). Non-trivial: >=1 repeated query and >=2 distinct (query kind, certificate flag) pairs on a framework with >=2 extensions, or a medium-size comparison; distinct = case.".into()
     }
     fn assumptions(&self) -> Vec<String> {
         vec!["oracle.rs".into(), "kissat optional; its absence lowers coverage only".into()]
     }
-    fn strategy(&self, tier: Tier) -> BoxedStrategy<ConfigCase> {
+    fn strategy(&self, tier: Tier) -> BoxedStrategy<ConfigAny> {
+        let medium = (crate::checks::metamorphic::meta_strategy(tier), any::<bool>(), vec(any::<u8>(), 3..=6))
+            .prop_map(|(meta, kissat, picks)| ConfigAny::Medium { meta, kissat, picks });
+        prop_oneof![250 => self.small_strategy(tier).prop_map(ConfigAny::Small), 1 => medium].boxed()
+    }
+    fn max_shrink_iters(&self) -> u32 {
+        3_000
+    }
+    fn n_cases(&self, tier: Tier) -> u32 {
+        tier.pick(40_000, 800_000)
+    }
+    fn run(&self, case: &ConfigAny, rec: &mut Rec) -> CheckResult {
+        match case {
+            ConfigAny::Small(c) => self.run_small(c, rec),
+            ConfigAny::Medium { meta, kissat, picks } => {
+                let fake = FakeSat::get();
+                fake.configure(json!({}));
+                let (backend, bname): (Backend, &str) = match (kissat, kissat_backend()) {
+                    (true, Some(k)) => (k, "kissat"),
+                    _ => (fake.backend(), "fake_sat"),
+                };
+                rec.eval();
+                let (n, compared) = crate::checks::metamorphic::backends_agree_on_medium(meta, &backend, bname, picks)?;
+                if bname == "fake_sat" {
+                    let bad = fake.illformed();
+                    if !bad.is_empty() {
+                        return Err(Failure::new("C06/medium/ill-formed-dimacs", bad[0].chars().take(400).collect::<String>()));
+                    }
+                }
+                if compared > 0 {
+                    rec.evals(compared as u64);
+                    rec.count("medium-framework-answers-compared-between-backends", compared as u64);
+                    rec.class(&format!("medium-framework-n-{:03}+-{}", (n / 50) * 50, bname));
+                    if rec.nontrivial(&serde_json::to_string(case).unwrap()) {
+                        rec.sample(|| json!({"medium_framework_arguments": n, "external_backend": bname, "answers_compared": compared}));
+                    }
+                }
+                Ok(())
+            }
+        }
+    }
+}
+
+impl Config {
+    fn small_strategy(&self, tier: Tier) -> BoxedStrategy<ConfigCase> {
         let nmax = 8;
         let maxlen = tier.pick(12usize, 30usize);
         (
@@ -226,10 +278,10 @@ impl Prop for Config {
             })
             .boxed()
     }
-    fn n_cases(&self, tier: Tier) -> u32 {
-        tier.pick(40_000, 800_000)
-    }
-    fn run(&self, case: &ConfigCase, rec: &mut Rec) -> CheckResult {
+}
+
+impl Config {
+    fn run_small(&self, case: &ConfigCase, rec: &mut Rec) -> CheckResult {
         let encs = encs_of(case.kind);
         let enc = encs[case.enc_pick as usize % encs.len()];
         if !enc_feasible(enc, &case.gc.g, &case.gc.pres) {
